@@ -8,6 +8,16 @@ CHECKS = {
    text="Generated-history exploration against a reference model. Every accessor (start/end/size/rows/cells/used_cells/get/get_value/Index, forward and reverse iteration) is compared with the model after every operation, so a Range that is not a full rectangle or a set_value/range/from_sparse that moves, drops or invents a cell is observed at the step where it happens. Exploration, not proof: histories longer than 25 ops or with areas beyond ~20x20 are not generated.",
    note="Trusts the harness's reference model (a BTreeMap plus optional bounds). Coordinates < 2^31+20; constructors called within their documented preconditions only.",
    design="4/C05"),
+ "C09": dict(
+   technique="property-based differential testing (proptest): generated (range, header configuration, target record type) cases compared with a reference deserialiser written from the statement; metamorphic column permutation; size_hint bracket checked around every next()",
+   text="Generated-input exploration with an independent reference deserialiser over 17 concrete target types (Vec<T>, tuples, BTreeMap/HashMap, two structs with Option fields) and four header configurations, at arbitrary origins. Item count and order, per-cell conversion rules, HeaderNotFound, CellError kind and absolute position, and size_hint are all asserted; conversions the statement does not fix are wildcards. Exploration only: ranges up to 8x6, a fixed menu of target types.",
+   note="Trusts the reference conversion table in props/c09.rs (written from the statement). Header names unique after trimming; header cells are strings.",
+   design="4/C09"),
+ "C11": dict(
+   technique="exhaustive enumeration of all 2,958,466 whole serials x 2 date systems against a harness-written civil calendar, plus property-based testing (proptest) of fractional serials with an exact-rational millisecond oracle and a monotonicity relation over generated pairs",
+   text="The whole-day domain is enumerated completely in both date systems on every run (quick too); fractional parts, day/millisecond boundaries, values beyond the calendar and non-finite values are sampled (300k points quick, 40M thorough) against exact rational arithmetic on the f64 bit pattern with a stated tolerance. as_date/as_time/Data::Int/Float/as_duration and the deserialize_as_* helpers are cross-checked.",
+   note="Trusts the harness's days-from-civil arithmetic (self-tested by round trip) and chrono's field accessors (used only to read calamine's answer). Serial 0, the fictitious day [60,61) and negative serials: only no-panic is asserted.",
+   design="4/C11"),
 }
 
 NOT_APPLICABLE = {
